@@ -17,6 +17,8 @@ pub enum Mis {
     NonSquare(usize, usize),
     /// pivot slice of this (wrong) length
     PivotLen(usize),
+    /// complex factorisation: square real part (n x n) but an imaginary part of this other shape
+    ImagShape(usize, usize),
 }
 
 #[derive(Serialize, Deserialize, Clone, Debug)]
@@ -303,6 +305,20 @@ pub fn check(c: &Case) -> Outcome {
             return match res {
                 Err(Error::LinearAlgebra(LinearAlgebraError::PivotSizeMismatch { .. })) => Outcome::pass("mismatch:pivot", true, json!({"n": n, "ip_len": l})),
                 other => Outcome::viol(format!("n={} pivot length {}: expected Err(PivotSizeMismatch), got {:?}", n, l, other)),
+            };
+        }
+        Mis::ImagShape(r, cc) => {
+            let mut a = Matrix::zeros(n, n);
+            for i in 0..n {
+                a[(i, i)] = 2.0 + i as f64;
+            }
+            let mut ai = Matrix::zeros(*r, *cc);
+            let mut ip = vec![0usize; n];
+            let res = std::panic::catch_unwind(std::panic::AssertUnwindSafe(|| lu_decomp_complex(&mut a, &mut ai, &mut ip)));
+            return match res {
+                Ok(Err(Error::LinearAlgebra(LinearAlgebraError::NonSquareMatrix { .. }))) => Outcome::pass("mismatch:imag-shape", true, json!({"n": n, "imag_rows": r, "imag_cols": cc})),
+                Ok(other) => Outcome::viol(format!("real part {}x{}, imaginary part {}x{}: expected Err(NonSquareMatrix), got {:?}", n, n, r, cc, other)),
+                Err(p) => Outcome::viol(format!("real part {}x{}, imaginary part {}x{}: expected Err(NonSquareMatrix), but the call panicked: {}", n, n, r, cc, crate::util::panic_msg(&p))),
             };
         }
         Mis::None => {}
@@ -631,7 +647,12 @@ pub fn shape_rhs(kind: u8, bmask: &[u8], bp: usize, complex: bool, br: &mut [f64
 pub fn strategy() -> BoxedStrategy<Case> {
     let main = (1usize..=12, any::<bool>()).prop_flat_map(|(n, cx)| body(n, cx));
     let mism = (1usize..=6, 1usize..=6, any::<bool>(), any::<bool>(), 0usize..=9).prop_map(|(r, c, cx, which, l)| {
-        if which && r != c {
+        if !which && cx && (l % 3 == 0) && (r != c || l > 4) {
+            // imaginary part of another shape: same rows / other columns, other rows / same columns, both
+            let n = r;
+            let (ir, ic) = if r != c { if l % 2 == 0 { (n, c) } else { (c, n) } } else { (n + 1, n + 1) };
+            Case { n, kind: "mismatch".into(), complex: true, ar: vec![], ai: vec![], br: vec![], bi: vec![], mis: Mis::ImagShape(ir, ic), struct_singular: false }
+        } else if which && r != c {
             Case { n: r, kind: "mismatch".into(), complex: cx, ar: vec![], ai: vec![], br: vec![], bi: vec![], mis: Mis::NonSquare(r, c), struct_singular: false }
         } else {
             let n = r;
